@@ -91,10 +91,14 @@ def compare(q, exp, tol, what, orig=None):
                 if abs(a.x - b.x) > atol or abs(a.y - b.y) > atol:
                     o = orig[i] if orig is not None and i < len(orig) else ref
                     vals = (o.rx, o.ry, o.get_rotation().as_degrees)
+                    rad = max(abs(o.rx), abs(o.ry), abs(e[2][0]), abs(e[2][1]), 1e-300)    # effective (possibly scaled-up) radii
                     dis.append({"clause": "ArcGeometry",
                                 "six_digit_print_is_lossy": any(float("%G" % v) != float("%.12G" % v) for v in vals),
                                 "radii_minimal": lam >= 1.0 - 1e-9,
-                                "rel_err": max(abs(a.x - b.x), abs(a.y - b.y)) / max(abs(e[2][0]), abs(e[2][1]), 1e-300),
+                                "rel_err": max(abs(a.x - b.x), abs(a.y - b.y)) / rad,
+                                # the same error divided by the F.6.6 conditioning factor of the arc's centre
+                                "rel_err_conditioned": max(abs(a.x - b.x), abs(a.y - b.y)) / rad
+                                / max(1.0, 0.2 / max(1.0 - lam, 1e-12) ** 0.5),
                                 "detail": "%s: segment %d arc point(%s)=%r, original arc %r (off by %.3g, tolerance %.3g, Lambda %.6g)" % (
                         what, i, t, a, b, max(abs(a.x - b.x), abs(a.y - b.y)), atol, lam)})
                     break
